@@ -9,6 +9,20 @@ def gen(rng, tier):
         return scenario.gen_close_pile(rng)
     scn = acct_prop.gen_general(rng, tier, p_minute=0.5, p_div_capture=0.0, p_actions=0.1, p_delist=0.05,
                                 opts=dict(p_cancel=0.25, actions_per_phase=(0, 1, 1, 2, 3, 4), flows=False))
+    if rng.random() < 0.3:
+        # a handler of TRADE / order events that places an order while the broker is in the middle of a matching round (re-entrant matching);
+        # oversized market orders are ended by the matcher itself (volume cap, price limits)
+        ids = list(scn['meta']['active_stocks']) + list(scn['meta']['futs'])
+        subs = []
+        for _ in range(rng.randint(1, 2)):
+            oid = rng.choice(ids)
+            if oid in scn['meta']['futs']:
+                act = dict(op=rng.choice(['buy_open', 'sell_open']), id=oid, amt=rng.choice([1, 5000, 100000]), style=rng.choice(['mkt', 'mkt', ['lim', 1.0]]))
+            else:
+                act = dict(op='order_shares', id=oid, amt=rng.choice([100, 10 ** 6, 10 ** 7, -100]), style=rng.choice(['mkt', 'mkt', ['lim', 1.0]]))
+            subs.append(dict(ev=rng.choice(['TRADE', 'TRADE', 'ORDER_CREATION_PASS', 'ORDER_UNSOLICITED_UPDATE']), acts=[act], every=rng.choice([1, 2]), max=rng.choice([1, 2, 4])))
+        scn['subs'] = subs
+        scn['cfg']['mod']['sys_risk']['validate_cash'] = False
     return scn
 
 
@@ -16,8 +30,9 @@ globals().update(acct_prop.make(
     'C04', components=['order.lifecycle'], clauses=['C04.'], gen=gen, analyser=matching.analyse, prelude=matching.PRELUDE,
     coq=['Model/Matcher.v', 'Model/Order.v', 'Proofs/OrderFacts.v'],
     rule=('random order streams with cancels at any later point (resting, already final, in the auction, under next-bar matching), several '
-          'orders per bar, split futures closes with rejected legs, partial fills under volume caps, matcher-side rejects and expiry at the close; '
+          'orders per bar, orders placed from TRADE / order-event handlers in the middle of a matching round, split futures closes with rejected legs, partial fills under volume caps, matcher-side rejects and expiry at the close; '
           'a case is the whole life of one order: its inputs (submit / match outcomes / cancel / day boundaries) replayed through the per-order '
           'machine of Model/Order.v and compared with the recorded event stream and final order state; distinct non-trivial = distinct '
           '(final status x type x number of fills x cancelled x announcements) classes'),
-    assumptions=['float64 rounding not modelled', 'match outcomes are inputs of the lifecycle machine (their computation is C05 / C06)']))
+    assumptions=['float64 rounding not modelled', 'match outcomes are inputs of the lifecycle machine (their computation is C05 / C06)',
+                 'an auction order that a re-entrant matching round (an order placed from a TRADE handler during the auction) matches a second time inside the same auction is checked by the monitors only (counted in the input distribution)']))
